@@ -242,7 +242,18 @@ func (r *recorder) UserData() interface{}              { return nil }
 var aesKey = []byte("0123456789abcdef")
 var aesIV = []byte("fedcba9876543210")
 
-func run(in Sx) Sx {
+// run never lets a panic of the library escape: calls whose panic is an outcome of its own are
+// caught where they are made; anything else that panics (SetBody, SetErrno, Errno, the codecs'
+// constructors ...) turns the whole observation into (-1), which the check reads as "a packet
+// operation panicked where the property demands a defined result".
+func run(in Sx) (obs Sx) {
+	if pn, _ := Catch(func() { obs = run1(in) }); pn {
+		return List(Int(-1))
+	}
+	return obs
+}
+
+func run1(in Sx) Sx {
 	switch in.At(0).AsInt() {
 	case 0:
 		p := packet.Make()
@@ -296,8 +307,27 @@ func run(in Sx) Sx {
 		if pn || !ok {
 			return List(Int(0))
 		}
-		return List(Int(1), hdrOfPkt(q).sx(), bodySx(q.Body()), Int(int64(q.Errno())),
-			res(func() Sx { return Bytes(q.BodyToBytes()) }))
+		obs := []Sx{Int(1), hdrOfPkt(q).sx(), bodySx(q.Body()), Int(int64(q.Errno())),
+			res(func() Sx { return Bytes(q.BodyToBytes()) })}
+		// send the decoded packet on again, as a forwarding node would
+		q2 := packet.Make()
+		ok = false
+		buf.Reset()
+		pn, _ = Catch(func() {
+			if _, err := enc.WritePacket(&buf, ec, q); err != nil {
+				return
+			}
+			if err := enc.ReadPacket(&buf, dc, q2); err != nil {
+				return
+			}
+			ok = true
+		})
+		if pn || !ok {
+			obs = append(obs, List(Int(0)))
+		} else {
+			obs = append(obs, List(Int(1), hdrOfPkt(q2).sx(), bodySx(q2.Body())))
+		}
+		return ListOf(obs)
 	case 4:
 		h := hdrOf(in.At(1))
 		p := h.packet()
@@ -611,6 +641,23 @@ func gen(a Args, out *Out) {
 			emit("wire-"+kindOf(g), List(Int(3), Int(int64(cd)), Int(int64(thr)), Bool(encb), h.sx(), List(Int(1), g)))
 		}
 	}
+	// error-flagged packets whose payload is not a well-formed varint: what the receiver's
+	// binary.Varint makes of it (overflow, truncation, trailing bytes) must match the model
+	rep := func(b byte, n int, tail ...byte) []byte { return append(bytes.Repeat([]byte{b}, n), tail...) }
+	malformed := [][]byte{rep(0xff, 9), rep(0xff, 10), rep(0xff, 11), rep(0x80, 9, 0x01), rep(0x80, 9, 0x02),
+		rep(0x80, 9, 0x7f), rep(0xff, 9, 0x01), rep(0xff, 9, 0x00), rep(0x80, 10, 0x01), rep(0x80, 3), {0x80},
+		{0x00, 0xff}, {0x01, 0x02, 0x03}, rep(0xff, 8, 0x7f), rep(0x80, 8, 0x80, 0x01, 0x55), rep(0xfe, 9, 0x01)}
+	for i, b := range malformed {
+		for cd := 1; cd <= 2; cd++ {
+			h := genHdr(rng, true)
+			h.flg |= uint8(fatchoy.PFlagError)
+			thr := 4096
+			if i%3 == 0 {
+				thr = 4
+			}
+			emit("wire-errflag-bytes", List(Int(3), Int(int64(cd)), Int(int64(thr)), Bool(i%2 == 0), h.sx(), List(Int(1), bytesGov(b))))
+		}
+	}
 	// scenario 4: replies and refusals through a recording endpoint
 	for i := 0; i < 200*scale; i++ {
 		h := genHdr(rng, false)
@@ -624,7 +671,8 @@ func gen(a Args, out *Out) {
 		switch rng.Intn(4) {
 		case 3:
 			g := genProto()
-			mid := packet.GetMessageIDOf(goValue(g).(proto.Message))
+			var mid int32
+			Catch(func() { mid = packet.GetMessageIDOf(goValue(g).(proto.Message)) })
 			emit("reply-proto", List(Int(4), h.sx(), Int(3), Int(int64(mid)), g))
 		case 0:
 			var b Sx
@@ -644,7 +692,9 @@ func gen(a Args, out *Out) {
 		case 1:
 			emit("refuse-with", List(Int(4), h.sx(), Int(1), Int(command), Int(genErrno(rng))))
 		default:
-			emit("refuse", List(Int(4), h.sx(), Int(2), Int(int64(packet.GetPairingAckID(h.cmd))), Int(genErrno(rng))))
+			var ack int32
+			Catch(func() { ack = packet.GetPairingAckID(h.cmd) })
+			emit("refuse", List(Int(4), h.sx(), Int(2), Int(int64(ack)), Int(genErrno(rng))))
 		}
 	}
 	// scenario 5: a message crosses the wire and is decoded by its registered id
@@ -668,19 +718,21 @@ func gen(a Args, out *Out) {
 			g = protoGov(k, rng.Bytes(rng.Intn(12)))
 		}
 		// the oracles: is a type registered under the command, does it accept the payload
-		p := h.packet()
-		p.SetBody(goValue(g))
-		w := append([]byte{}, p.BodyToBytes()...)
-		if h.flg&uint8(fatchoy.PFlagError) != 0 && len(w) > 0 {
-			x, _ := binary.Varint(w)
-			var tmp [binary.MaxVarintLen64]byte
-			w = tmp[:binary.PutVarint(tmp[:], x)]
-		}
-		registered := packet.GetMessageNameByID(h.cmd) != ""
-		valid := false
-		if msg := packet.CreateMessageByID(h.cmd); msg != nil {
-			valid = proto.Unmarshal(w, msg) == nil
-		}
+		registered, valid := false, false
+		Catch(func() {
+			p := h.packet()
+			p.SetBody(goValue(g))
+			w := append([]byte{}, p.BodyToBytes()...)
+			if h.flg&uint8(fatchoy.PFlagError) != 0 && len(w) > 0 {
+				x, _ := binary.Varint(w)
+				var tmp [binary.MaxVarintLen64]byte
+				w = tmp[:binary.PutVarint(tmp[:], x)]
+			}
+			registered = packet.GetMessageNameByID(h.cmd) != ""
+			if msg := packet.CreateMessageByID(h.cmd); msg != nil {
+				valid = proto.Unmarshal(w, msg) == nil
+			}
+		})
 		emit("decode-"+kindOf(g), List(Int(5), Int(int64(1+rng.Intn(2))), h.sx(), g, Bool(registered), Bool(valid)))
 	}
 	// volume: the numeric wire/text forms and the error-code path evaluated directly in Go
@@ -723,7 +775,8 @@ func gen(a Args, out *Out) {
 			return n == len(w) && x == bits && math.Float64bits(p.BodyToFloat()) == bits && err == nil && (t == f || f != f && t != t)
 		})
 	}
-	encs := []codec.Encoder{codec.NewV1Encoder(0), codec.NewV2Encoder(0)}
+	var encs []codec.Encoder
+	Catch(func() { encs = []codec.Encoder{codec.NewV1Encoder(0), codec.NewV2Encoder(0)} })
 	for i := 0; i < nvol/10; i++ {
 		ec := int32(vr.Next())
 		cd := i % 2
